@@ -5,14 +5,18 @@ import Driver.Deriv
 import Driver.Ecp
 import Driver.Bessel
 import Driver.Quad
+import Driver.Radial
 /-! Model driver.  Single-line requests: first token selects the layer.
 Multi-line requests: `begin <layer>` … `end`. -/
 
 def tokens (line : String) : List String :=
   (line.trimAscii.toString.splitOn " ").filter (· ≠ "")
 
+def radialEnv : Thunk Driver.Radial.Env := Thunk.mk fun _ => Driver.Radial.mkEnv
+
 def dispatch (toks : List String) : List String :=
   match toks with
+  | "radial" :: rest => Driver.Radial.handle radialEnv.get rest
   | "history" :: rest => Driver.History.handle rest
   | "copy" :: rest => Driver.Copy.handle rest
   | "ecp" :: rest => Driver.Ecp.handle rest
